@@ -281,13 +281,25 @@ impl<T> RcInner<T> {
 
     #[inline]
     pub(crate) fn is_not_destructed(&self) -> bool {
+        // The caller is about to use the object under its guard without owning a count. Like a
+        // decrement, this must leave the current epoch in the count word: otherwise an object
+        // that is only kept alive by a link of a node that is being reclaimed looks untouched to
+        // the cascade, which then reclaims it immediately.
+        let epoch = global_epoch();
         vpoint!(State, self as *const Self);
         let mut old = State::from_raw(self.state.load(Ordering::SeqCst));
-        while !old.destructed() && old.strong() == 0 {
+        while !old.destructed() {
+            let mut new = old.with_epoch(epoch);
+            if old.strong() == 0 {
+                new = new.add_strong(1);
+            }
+            if new.as_raw() == old.as_raw() {
+                return true;
+            }
             vpoint!(State, self as *const Self);
             match self.state.compare_exchange(
                 old.as_raw(),
-                old.add_strong(1).as_raw(),
+                new.as_raw(),
                 Ordering::SeqCst,
                 Ordering::SeqCst,
             ) {
@@ -295,7 +307,7 @@ impl<T> RcInner<T> {
                 Err(curr) => old = State::from_raw(curr),
             }
         }
-        !old.destructed()
+        false
     }
 }
 
